@@ -76,6 +76,25 @@ CHECKS['C02'] = dict(
     level_note='Trusted: model snapshot semantics = the statement; foreign live handles only passed to ownsHandle. Self-deadlock would show as a hang (reported after one retry).',
 )
 
+CHECKS['C03'] = dict(
+    title='Listener management and dispatch are thread-safe and linearizable',
+    level='exploration',
+    rule='concurrent histories: 2-4 threads x 4-10 operations (append/prepend/insert before a shared handle/remove a shared handle/ownsHandle/empty/forEach/invoke) on one CallbackList or one '
+         'EventDispatcher (2 keys, history partitioned per key; std::map and unordered_map), std::mutex and SpinLock, 1-6 pre-populated callbacks, handles published between threads; every call '
+         'stamped (call, return) by one global atomic tick at the client boundary; after join: Wing-Gong/Lowe linearizability search against M-list with the final enumeration as last operation, '
+         'direct at-most-once-removal / no-loss / no-duplication counts, traversal oracle (no callback twice; callbacks present throughout visited exactly once; none removed before / added after; '
+         'order consistent with final list order), structural walk, ledger; schedule perturbation off/random/targeted (incl. the window between before.lock() and the mutex in insert); TSan build; '
+         'distinct_nontrivial = distinct lock-acquisition-order hashes (plain builds)',
+    jobs=[J('drv_cblist_mt', 'plain', '', 6000, 300000, shards=8, shards_thorough=16),
+          J('drv_cblist_mt', 'tsan', '', 800, 30000, seed_offset=1, shards=8, shards_thorough=16),
+          J('drv_cblist_mt', 'asan', '', 1500, 40000, seed_offset=2, shards=8, shards_thorough=16)],
+    assumptions=['x86-TSO only', 'schedules reached by perturbation, not enumerated', 'a linearizability search time-out (5 s) is inconclusive and counted'],
+    technique='recorded concurrent histories + offline linearizability checker (Wing-Gong with memoisation, per-key partitioning) + traversal oracle; seeded schedule perturbation through injected policies and guarded preemption points; TSan; ASan',
+    level_text='Exploration: thousands of short concurrent histories (<=36 operations each so the search is exact), with race windows widened on purpose; any result set that no sequential execution explains is reported with the history.',
+    level_note='Trusted: the checker (model M-list, real-time order from one seq_cst tick), the perturbing policy wrappers (no added synchronisation in TSan builds).',
+    parallel=8,
+)
+
 MD = [0x007, 0x038, 0x1c0, 0xe00]
 CHECKS['C04'] = dict(
     title="dispatch reaches exactly the dispatched event's listeners, arguments intact",
